@@ -329,6 +329,9 @@ static int worker_main(const Scenario& sc, const Options& opt) {
     const auto known = load_known();
     std::vector<Plan> enumerated;
     if (sc.enumerate) enumerated = sc.enumerate(opt.tier);
+    // liveness signal for the parent's watchdog while a long run (or the minimiser) makes kernel progress
+    static double last_beat = 0;
+    sk::set_heartbeat([] { const double t = real_now(); if (t - last_beat > 2.0) { last_beat = t; emit("H"); } });
     const double deadline = real_now() + opt.secs;
     std::set<std::string> minimised_keys;
     std::uint64_t executed = 0;
@@ -338,7 +341,7 @@ static int worker_main(const Scenario& sc, const Options& opt) {
         if (real_now() > deadline && executed > 0 && idx >= enumerated.size()) break;
         emit("S " + std::to_string(idx));
         Case c = make_case(sc, opt.seed, idx, opt.tier, enumerated);
-        if (executed < 2 && opt.worker == 0) emit("P " + c.plan.to_json().dump());
+        if ((executed < 2 && opt.worker == 0) || opt.single >= 0) emit("P " + c.plan.to_json().dump());
         Outcome o = execute(sc, c.plan, c.sched_seed, false);
         ++executed;
         std::string states;
@@ -430,6 +433,8 @@ struct WorkerProc {
     bool done = false;
     int index = 0;
     int restarts = 0;
+    double last_activity = 0;
+    bool hung = false;
 };
 
 static std::string self_exe() {
@@ -561,6 +566,7 @@ static int parent_main(const Scenario& sc, const Options& opt) {
     const auto known = load_known();
     Agg agg;
     const std::string exe = self_exe();
+    const double hang_secs = getenv("VERIF_HANG_SECS") ? atof(getenv("VERIF_HANG_SECS")) : 75.0;
     std::vector<Plan> enumerated;
     if (sc.enumerate) enumerated = sc.enumerate(opt.tier);
 
@@ -632,12 +638,19 @@ static int parent_main(const Scenario& sc, const Options& opt) {
         for (auto& w : ws) if (w.fd >= 0) { pfds.push_back({w.fd, POLLIN, 0}); map.push_back(&w); }
         if (pfds.empty()) break;
         poll(pfds.data(), pfds.size(), 1000);
+        // watchdog: repository code spinning without ever reaching the simulated kernel cannot be bounded by the
+        // step limit; a worker that reports nothing for hang_secs of wall time is killed and the run counted as a hang
+        for (auto* wp : map) {
+            if (wp->last_activity == 0) wp->last_activity = real_now();
+            if (!wp->hung && real_now() - wp->last_activity > hang_secs) { wp->hung = true; kill(wp->pid, SIGKILL); }
+        }
         for (std::size_t i = 0; i < pfds.size(); ++i) {
             if (!(pfds[i].revents & (POLLIN | POLLHUP | POLLERR))) continue;
             WorkerProc& w = *map[i];
             char buf[65536];
             const ssize_t n = read(w.fd, buf, sizeof buf);
             if (n > 0) {
+                w.last_activity = real_now();
                 w.buf.append(buf, static_cast<std::size_t>(n));
                 std::size_t nl;
                 while ((nl = w.buf.find('\n')) != std::string::npos) {
@@ -658,6 +671,7 @@ static int parent_main(const Scenario& sc, const Options& opt) {
             std::string key = sanitizer_key(sc.id, w.pid, &detail);
             const std::string how = WIFSIGNALED(status) ? "signal " + std::to_string(WTERMSIG(status)) : "exit " + std::to_string(WEXITSTATUS(status));
             if (key.empty()) key = "crash." + how;
+            if (w.hung) { key = "hang.no_progress_in_repository_code"; detail = "the run made no progress for " + std::to_string(static_cast<int>(hang_secs)) + " s of wall time (busy loop outside the simulated kernel); worker killed"; }
             for (auto& ch : key) if (ch == ' ') ch = '_';
             const std::int64_t idx = w.current;
             if (idx < 0) {
@@ -676,12 +690,20 @@ static int parent_main(const Scenario& sc, const Options& opt) {
                 pid_t p2 = spawn_child(args, &fd2, sc.id);
                 if (p2 > 0) {
                     char tmp[4096];
-                    while (read(fd2, tmp, sizeof tmp) > 0) {}
+                    const double c0 = real_now();
+                    bool hung2 = false;
+                    for (;;) {
+                        pollfd pf{fd2, POLLIN, 0};
+                        poll(&pf, 1, 1000);
+                        if (pf.revents & (POLLIN | POLLHUP | POLLERR)) { if (read(fd2, tmp, sizeof tmp) <= 0) break; }
+                        if (real_now() - c0 > hang_secs) { hung2 = true; kill(p2, SIGKILL); break; }
+                    }
                     close(fd2);
                     int st2 = 0;
                     waitpid(p2, &st2, 0);
                     std::string d2;
                     std::string key2 = sanitizer_key(sc.id, p2, &d2);
+                    if (hung2) key2 = "hang.no_progress_in_repository_code";
                     const std::string how2 = WIFSIGNALED(st2) ? "signal " + std::to_string(WTERMSIG(st2)) : "exit " + std::to_string(WEXITSTATUS(st2));
                     if (key2.empty()) key2 = "crash." + how2;
                     for (auto& ch : key2) if (ch == ' ') ch = '_';
@@ -713,6 +735,8 @@ static int parent_main(const Scenario& sc, const Options& opt) {
                 (void)next;
                 w.current = -1;
                 w.done = false;
+                w.hung = false;
+                w.last_activity = real_now();
                 w.pid = spawn_child(base_args(w.index, static_cast<std::uint64_t>(idx) + static_cast<std::uint64_t>(opt.workers) - static_cast<std::uint64_t>(w.index)), &w.fd, sc.id);
                 if (w.pid < 0) --live;
             } else {
@@ -728,7 +752,7 @@ static int parent_main(const Scenario& sc, const Options& opt) {
     for (auto& v : agg.viols) {
         if (reported.count(v.key)) continue;
         reported.insert(v.key);
-        const bool is_crash = v.key.rfind("sanitizer.", 0) == 0 || v.key.rfind("crash.", 0) == 0;
+        const bool is_crash = v.key.rfind("sanitizer.", 0) == 0 || v.key.rfind("crash.", 0) == 0 || v.key.rfind("hang.", 0) == 0;
         if (is_crash) {
             if (!sc.crash_is_violation) {
                 agg.notes.push_back("process death outside this property's scope: " + v.key + " (replay " + v.path + ")");
